@@ -9,7 +9,9 @@ import numpy as np
 
 from . import core, locate
 
-H = [0.25, 0.5, 0.125]
+# the last two are NOT dyadic (with an origin that is not a multiple of the spacing): every cell-edge coordinate is then
+# rounded, which is where a test like z_min <= z < z_max on computed positions goes wrong (F25)
+H = [0.25, 0.5, 0.125, 0.1, 0.37]
 
 C02_QUICK = ["q_rad_free", "q_cyl_free", "q_cylp_free"]
 C02_THOROUGH = C02_QUICK + ["t_rad_free", "t_cyl_free", "t_cylp_free", "t_cyl_free2", "t_cylp_free2", "t_cylp_free3", "t_cylp_free4"]
@@ -38,8 +40,12 @@ def _replay_chunk(args):
 
     bad, traces, nontriv = [], [], 0
     for idx, it in items:
-        h = H[idx % len(H)]
+        # rendering decides `distance < radius` in doubles: dyadic scales only (exact); binary images: all scales
+        hi = idx % (3 if p["mode"] == "render" else len(H))
+        h = H[hi]
         dr, dz, z0 = p["dr"] * h, p["dz"] * h, p["z0"] * h
+        if hi >= 3:
+            z0 += 0.013
         nr, nz = p["nr"], p["nz"]
         fails = []
         case = {"params": p, "h": h, "mask": it["mask"], "drop": it["drop"]}
@@ -62,7 +68,7 @@ def _replay_chunk(args):
                 R = math.sqrt(it["drop"]["r2"]) * h
                 pos = np.zeros(dim)
                 if p["family"] == "cyl":
-                    pos[2] = it["drop"]["zc"] * h
+                    pos[2] = it["drop"]["zc"] * h + (z0 - p["z0"] * h)
                 d0 = SphericalDroplet(pos, R)
                 field = d0.get_phase_field(grid)
                 if not np.array_equal(field.data > 0.5, m):
@@ -111,7 +117,7 @@ def _replay_chunk(args):
                 if p["mode"] == "render":
                     if len(res) != 1:
                         fails.append(f"{len(res)} droplets returned for one original")
-                    elif abs(float(res[0].position[2]) - it["drop"]["zc"] * h) > dz / 2 + 1e-9:
+                    elif abs(float(res[0].position[2]) - pos[2]) > dz / 2 + 1e-9:
                         fails.append("axial position not within half a cell of the original")
                 if len(exp) >= 1:
                     nontriv += 1
